@@ -39,7 +39,7 @@ MANIFEST = {
     "ref": "DESIGN.md §3 C12",
 }
 BUDGET = {
-    "quick": {"runs": 400, "chunk": 20, "wall": 170, "chunk_timeout": 600},
+    "quick": {"runs": 1000, "chunk": 25, "wall": 170, "chunk_timeout": 600},
     "thorough": {"runs": 16000, "chunk": 80, "wall": 1700, "chunk_timeout": 1200},
 }
 _MODULES = ["tiny", "words", "shapes", "floats", "zoo"]
